@@ -97,7 +97,13 @@ class SymCtx:
         self._path_nontrivial = False
 
     def end_path(self):
-        if self._path_nontrivial:
+        # a path counts when the solver did work on it: it decided at least one branch on a symbolic value (path feasibility), or at least one
+        # obligation on it was not closed by term simplification alone
+        try:
+            decided = len(self.eng.decisions) > 0
+        except Exception:
+            decided = False
+        if self._path_nontrivial or decided:
             self.nontrivial_paths += 1
 
     # ---- inputs
